@@ -320,20 +320,24 @@ def rule_context(ctx, rep, rid="R-C07-context"):
     if not ov:
         rep.error(rid, "graph builder overrides not found")
         return
+    cfs = context_fields(ctx)         # found by role (the field that is assigned Some(<the visited declaration's own name>)), not by name
+    if not cfs:
+        rep.error(rid, "the graph builder's current-declaration field was not found")
+        return
     setters, consumers = set(), set()
     for m, b in ov.items():
         for bd in [b] + [cb for cb in ctx.prog.bodies.values() if cb.f.get("parent") == b.id]:
             for _, _, st_ in bd.all_stmts():
                 if st_[0] == "=":
                     fs = [x for x in st_[1][1] if isinstance(x, list) and x[0] == "f"]
-                    if fs and fs[-1][3] == VIS and fs[-1][2] == "current_from" and _is_some(bd, st_[2]):
+                    if fs and fs[-1][3] == VIS and fs[-1][2] in cfs and _is_some(bd, st_[2]):
                         setters.add(m)
             # a consumer: branches on the discriminant of self.current_from and builds an Err on the None edge
             for i in range(len(bd.bbs)):
                 si = switch_info(bd, i)
                 if si and si["kind"] == "disc" and si["subject"][0] == "place":
                     fs = [x for x in si["subject"][1][1] if isinstance(x, list) and x[0] == "f"]
-                    if fs and fs[-1][3] == VIS and fs[-1][2] == "current_from":
+                    if fs and fs[-1][3] == VIS and fs[-1][2] in cfs:
                         for succ, labs in si["edges"].items():
                             if labs == ["None"]:
                                 region = bd.reachable(succ, avoid={s2 for s2 in si["edges"] if s2 != succ})
@@ -348,7 +352,7 @@ def rule_context(ctx, rep, rid="R-C07-context"):
                     for _, _, st_ in hb.all_stmts():
                         if st_[0] == "=":
                             fs = [x for x in st_[1][1] if isinstance(x, list) and x[0] == "f"]
-                            if fs and fs[-1][3] == VIS and fs[-1][2] == "current_from" and _is_some(hb, st_[2]):
+                            if fs and fs[-1][3] == VIS and fs[-1][2] in cfs and _is_some(hb, st_[2]):
                                 setters.add(m)
     if not consumers:
         rep.error(rid, "no method of the graph builder tests current_from (anchor moved)")
